@@ -475,6 +475,35 @@ impl SubscriptionStats {
 //@item src/subscriptions/subscription_actor.rs enum SubscriptionRequest
 //@item src/subscriptions/subscription_actor.rs struct SubscriptionActor
 
+// ======================================================================================
+// src/subscriptions/subscription.rs: the handle in front of the actor's mailbox (async fns, whole bodies)
+//@item src/subscriptions/errors.rs enum PostMessagesError drop-derive=thiserror::Error strip-attr=error
+/// TRUSTED (A-STUB): the mailbox field of `Subscription` (its other fields are not read by the methods below)
+pub struct Subscription { pub sender: mpsc::Sender<SubscriptionRequest> }
+impl Subscription {
+//@fn src/subscriptions/subscription.rs Subscription::pull_messages tags=C15
+//@ ret r
+//@ # OK means: exactly one PullMessages request with the caller's limit was put into the actor's mailbox
+//@ ensures[C15] r.is_ok() ==> exists|responder: oneshot::Sender<Result<Vec<PulledMessage>, PullMessagesError>>| #[trigger] mpsc::sent(self.sender, SubscriptionRequest::PullMessages { max_count, responder })
+//@end
+//@fn src/subscriptions/subscription.rs Subscription::post_messages tags=C01
+//@ ret r
+//@ ensures[C01] r.is_ok() ==> mpsc::sent(self.sender, SubscriptionRequest::PostMessages { messages: new_messages })
+//@end
+//@fn src/subscriptions/subscription.rs Subscription::acknowledge_messages tags=C02
+//@ ret r
+//@ ensures[C02] r.is_ok() ==> exists|responder: oneshot::Sender<Result<(), AcknowledgeMessagesError>>| #[trigger] mpsc::sent(self.sender, SubscriptionRequest::AcknowledgeMessages { ack_ids, responder })
+//@end
+//@fn src/subscriptions/subscription.rs Subscription::modify_ack_deadlines tags=C05
+//@ ret r
+//@ ensures[C05] r.is_ok() ==> exists|responder: oneshot::Sender<Result<(), ModifyDeadlineError>>| #[trigger] mpsc::sent(self.sender, SubscriptionRequest::ModifyDeadline { deadline_modifications, responder })
+//@end
+//@fn src/subscriptions/subscription.rs Subscription::delete tags=C11
+//@ ret r
+//@ ensures[C11] r.is_ok() ==> exists|responder: oneshot::Sender<Result<(), DeleteError>>| #[trigger] mpsc::sent(self.sender, SubscriptionRequest::Delete { responder })
+//@end
+}
+
 /// abstract state of one subscription (DESIGN §6)
 pub struct SubView {
     pub backlog: Seq<Arc<TopicMessage>>,
@@ -790,4 +819,9 @@ pub proof fn lemma_pull_limit(m: i32, backlog_len: int, n: int)
 //@tags
 
 } // verus!
+// A-STUB: awaiting the receiving half of a oneshot channel (outside the verified text: Verus has no model of `poll`)
+impl<T> core::future::Future for oneshot::Receiver<T> {
+    type Output = Result<T, oneshot::RecvError>;
+    fn poll(self: core::pin::Pin<&mut Self>, _cx: &mut core::task::Context<'_>) -> core::task::Poll<Self::Output> { unimplemented!() }
+}
 fn main() {}
